@@ -4,7 +4,7 @@ from .sched import P, submit_all
 PLANS = {}
 
 # --- dependency graphs, every embedding of an upstream task (C04)
-EMBEDDINGS = ["direct", "list", "dict", "nested", "nestedlist", "pre", "init", "explicit"]
+EMBEDDINGS = ["direct", "list", "dict", "nested", "nestedlist", "pre", "init", "explicit", "meta"]
 for how in EMBEDDINGS:
     PLANS[f"chain2-{how}"] = P({"a": {}, "b": {"deps": {"a": how}}}, submit_all("ab"))
     PLANS[f"chain2out-{how}"] = P({"a": {"out": True}, "b": {"deps": {"a": how}}}, submit_all("ab"))
@@ -15,6 +15,16 @@ PLANS["diamond"] = P(
     {"a": {}, "b": {"deps": {"a": "direct"}}, "c": {"deps": {"a": "list"}}, "d": {"deps": {"b": "dict", "c": "nested"}}},
     submit_all("abcd"),
 )
+
+# an output handed on by a second task (a -> b passes a's output on -> c consumes it: c must wait for b)
+PLANS["chain-pass"] = P({"a": {"out": True}, "b": {"deps": {"a": "direct"}, "pass": True}, "c": {"deps": {"b": "direct"}}}, submit_all("abc"))
+PLANS["chain-pass-list"] = P({"a": {"out": True}, "b": {"deps": {"a": "direct"}, "pass": True}, "c": {"deps": {"b": "list"}}, "d": {"deps": {"a": "dict"}}},
+                             submit_all("adbc"))     # (d is submitted before b re-marks a's output as its own)
+# a dependent submitted when one of its two upstream jobs has already finished
+PLANS["join-late"] = P({"a": {}, "b": {}, "c": {"deps": {"a": "direct", "b": "list"}}},
+                       [["submit", "a"], ["waitjob", "a"], ["submit", "b"], ["submit", "c"], ["wait"]])
+PLANS["join-late2"] = P({"a": {}, "b": {}, "c": {"deps": {"b": "direct", "a": "dict"}}, "d": {"deps": {"a": "pre", "b": "init"}}},
+                        [["submit", "a"], ["waitjob", "a"], ["submit", "b"], ["submit", "c"], ["submit", "d"], ["wait"]])
 
 # --- failures (C06, C07)
 PLANS["chain3-fail-a"] = P({"a": {"codes": [1]}, "b": {"deps": {"a": "direct"}}, "c": {"deps": {"b": "direct"}}}, submit_all("abc"))
@@ -56,6 +66,7 @@ PLANS["resubmit-dep"] = P(
     {"a": {"codes": [1, 0]}, "b": {"deps": {"a": "direct"}}},
     [["submit", "a"], ["waitjob", "a"], ["submit", "a"], ["submit", "b"], ["wait"]],
 )
+PLANS["resubmit-twice"] = P({"a": {"codes": [1, 0]}}, [["submit", "a"], ["waitjob", "a"], ["submit", "a"], ["submit", "a"], ["wait"]])
 PLANS["resubmit-early"] = P({"a": {"codes": [1, 0]}}, [["submit", "a"], ["submit", "a"], ["submit", "a"], ["wait"]])
 PLANS["waitjob"] = P({"a": {}, "b": {"deps": {"a": "list"}}}, [["submit", "a"], ["submit", "b"], ["waitjob", "b"], ["wait"]])
 
